@@ -15,7 +15,7 @@ BOUNDS = dict(variables='3 outputs (sizes 2, 2x2 and 1) + 2 inputs, total vector
 STUBS = ['module-global float in openmdao.utils.general_utils / openmdao.core.system -> pass-through for proxies',
          'sqrt as an atom with y>=0 & y*y==x (get_norm)']
 ASSUMPTIONS = ['ref != ref0, res_ref != 0 (documented preconditions)', 'reals, not IEEE']
-OUTSIDE = ['PETScVector / distributed vectors', 'complex-step storage (imaginary parts)', 'get_hash']
+OUTSIDE = ['PETScVector / distributed vectors', 'complex-step storage (imaginary parts): the symbolic container keeps one object per entry, so a vector with separate real and imaginary storage cannot be represented', 'get_hash']
 
 
 def harnesses(tier, seed):
@@ -203,6 +203,17 @@ def h_views(ctx, kind, linear):
         root._abs_set_val(nm, val)
         ref[st:en] = np.asarray(val).reshape(-1)
         ctx.eq(f'write[{nm}]', root.asarray(), ref)
+    # set_vals: one value per variable in vector order, any memory layout (Fortran-ordered and transposed values are
+    # stored in C order like view[...] = val)
+    vals = []
+    for k, (nm, (st, en, shp)) in enumerate(layout.items()):
+        v = ctx.reals(f'sv{k}', shp if shp != () else 1, -100, 100)
+        if len(shp) == 2:
+            v = np.asfortranarray(v) if k % 2 == 0 else v.T.copy().T
+        ref[st:en] = np.asarray(v).reshape(-1)        # C-order flattening of the logical array
+        vals.append(v)
+    root.set_vals(vals)
+    ctx.eq('set_vals', root.asarray(), ref)
     # sub-system vectors are views of the root array
     sysm = p.model.g.src if kind != 'input' else p.model.snk
     sub = _vec(sysm, kind, linear)
